@@ -52,22 +52,25 @@ struct Scale {
     w: usize,
     off: Vec<usize>,     // per abstract EDS index
     name: &'static str,
+    /// concrete height = abstract height * hscale (10 in the history replay: heights never adjacent)
+    hscale: u64,
 }
 
 impl Scale {
     fn all(w: usize, seed: u64) -> Vec<Scale> {
         let block = w / WABS;
         if block == 1 {
-            return vec![Scale { w, off: vec![0; WABS], name: "id" }];
+            return vec![Scale { w, off: vec![0; WABS], name: "id", hscale: 1 }];
         }
         let mut rng = StdRng::seed_from_u64(seed ^ 0x5ca1e ^ (w as u64));
         vec![
-            Scale { w, off: vec![0; WABS], name: "lo" },
-            Scale { w, off: vec![block - 1; WABS], name: "hi" },
+            Scale { w, off: vec![0; WABS], name: "lo", hscale: 1 },
+            Scale { w, off: vec![block - 1; WABS], name: "hi", hscale: 1 },
             Scale {
                 w,
                 off: (0..WABS).map(|_| rng.gen_range(0..block)).collect(),
                 name: "rnd",
+                hscale: 1,
             },
         ]
     }
@@ -112,7 +115,7 @@ fn ns_of_class(sc: &Scale, r: usize, n: usize) -> Namespace {
 
 /// (honest CID of the identifier, identifier bytes = expected digest)
 fn id_cid(id: &Value, sc: &Scale) -> (Cid, Vec<u8>) {
-    let h = id["h"].as_u64().unwrap();
+    let h = id["h"].as_u64().unwrap() * sc.hscale;
     let (p0, p1) = (us(&id["pos"][0]), us(&id["pos"][1]));
     let mut bytes = BytesMut::new();
     let cid = match st(&id["kind"]) {
@@ -373,6 +376,113 @@ fn build_block(b: &Value, sc: &Scale, world: &World) -> Built {
     let (_, digest) = id_cid(&b["id"], sc);
     let (want, _) = id_cid(&b["want"], sc);
     Built { code: code_of(st(&b["code"])), block, container, id_hash: (code_of(st(&b["id"]["kind"])), digest), want }
+}
+
+/// C10 histories (spec/MultihasherSeq.tla): every TLC-generated behaviour = initial store + L
+/// operations (insert header committing to square A/B as new head, remove a height, hash a block) is
+/// replayed on ONE real `ShwapMultihasher` holding an `Arc` of ONE real `InMemoryStore` that is mutated
+/// underneath it; each hash must be answered as the specification demands for the store contents
+/// at that moment.  Abstract height h is the real height 10 * h (never adjacent: no neighbour checks).
+pub fn replay_seq(args: &Args) {
+    let lines = read_cases(args.pos(2));
+    let seed = args.opt_u64("seed", 1);
+    let widths: Vec<usize> = args.opt("widths").unwrap_or("4,8").split(',').map(|s| s.parse().unwrap()).collect();
+    let rt = tokio::runtime::Builder::new_current_thread().enable_all().build().unwrap();
+    let mut sum = Summary::new("multihasherseq");
+    let table: Vec<(String, Value)> = lines
+        .iter()
+        .find_map(|l| l.get("table"))
+        .unwrap_or_else(|| tool_error("no block table in the case file"))
+        .as_array()
+        .unwrap()
+        .iter()
+        .map(|e| (e["key"].to_string(), e["b"].clone()))
+        .collect();
+    let mut outcomes = BTreeMap::<String, u64>::new();
+    let mut behaviours = 0u64;
+    const HS: u64 = 10;
+    for &w in &widths {
+        let a = Sq::build(w / 2, seed, 0, Layout::Diag, false);
+        let b = Sq::build(w / 2, seed, 1, Layout::Diag, false);
+        // a header for every (height, square), each from a generator of its own
+        let mut hdr: HashMap<(u64, String), ExtendedHeader> = HashMap::new();
+        for h in 1..=2u64 {
+            for (name, sq) in [("A", &a), ("B", &b)] {
+                let hd = ExtendedHeaderGenerator::new_from_height(h * HS).next_with_dah(sq.dah.clone());
+                if hd.height() != h * HS {
+                    tool_error("generated header has an unexpected height");
+                }
+                hdr.insert((h, name.to_string()), hd);
+            }
+        }
+        let world = World { a, b, headers: vec![], hashers: HashMap::new() };
+        let mut sc = Scale::all(w, seed).pop().unwrap();
+        sc.hscale = HS;
+        let built: HashMap<String, Built> = table.iter().map(|(k, blk)| (k.clone(), build_block(blk, &sc, &world))).collect();
+        for c in lines.iter().filter(|l| l.get("ops").is_some()) {
+            behaviours += 1;
+            let store = Arc::new(InMemoryStore::new());
+            for (i, sq) in c["init"].as_array().unwrap().iter().enumerate() {
+                if st(sq) != "none" {
+                    rt.block_on(store.insert(hdr[&(i as u64 + 1, st(sq).to_string())].clone()))
+                        .unwrap_or_else(|e| tool_error(&format!("initial insert: {e}")));
+                }
+            }
+            // the one long-lived multihasher of this behaviour
+            let hasher = VShwapMultihasher::new(store.clone());
+            for (n, op) in c["ops"].as_array().unwrap().iter().enumerate() {
+                let h = op["h"].as_u64().unwrap();
+                match st(&op["op"]) {
+                    "insert" => rt
+                        .block_on(store.insert(hdr[&(h, st(&op["sq"]).to_string())].clone()))
+                        .unwrap_or_else(|e| tool_error(&format!("store refused an insert the specification allows: {e} in {c}"))),
+                    "remove" => rt
+                        .block_on(store.remove_height(h * HS))
+                        .unwrap_or_else(|e| tool_error(&format!("store refused a removal the specification allows: {e} in {c}"))),
+                    "hash" => {
+                        let bl = &built[&op["key"].to_string()];
+                        let demand_ok = op["res"].as_u64().unwrap() == 1;
+                        let r = catch(|| rt.block_on(hasher.hash(bl.code, &bl.block)));
+                        let (got, wrong_hash) = match &r {
+                            Ok(Ok(hh)) => ("ok".to_string(), *hh != bl.id_hash),
+                            Ok(Err(_)) => ("err".to_string(), false),
+                            Err(p) => (format!("panic: {p}"), false),
+                        };
+                        *outcomes.entry(format!("hash:{}", if got.starts_with("panic") { "panic" } else { &got })).or_default() += 1;
+                        let prefix = serde_json::to_string(&c["ops"].as_array().unwrap()[..=n]).unwrap();
+                        let kh = {
+                            use std::hash::{Hash, Hasher};
+                            let mut hs = std::collections::hash_map::DefaultHasher::new();
+                            (w, c["init"].to_string(), &prefix).hash(&mut hs);
+                            hs.finish()
+                        };
+                        sum.case("C10", Some(format!("seq/{kh:x}")), || json!({"behaviour": c, "step": n, "width": w, "got": got}));
+                        if got.starts_with("panic") || wrong_hash || (got == "ok") != demand_ok {
+                            let before: Vec<&str> = c["ops"].as_array().unwrap()[..n].iter().map(|o| st(&o["op"])).collect();
+                            let same_h = |name: &str| c["ops"].as_array().unwrap()[..n].iter().any(|o| st(&o["op"]) == name && o["h"].as_u64() == Some(h));
+                            let gotk = if got.starts_with("panic") { panic_kind(&got) } else { got.clone() };
+                            let class = json!({"op": "hash-in-history", "demand": if demand_ok { "ok" } else { "err" }, "got": gotk, "wrong_hash": wrong_hash,
+                                               "kind": op["key"][0], "after_remove_of_height": same_h("remove"), "after_insert_at_height": same_h("insert"),
+                                               "after_hash_of_height": same_h("hash")});
+                            sum.violation(
+                                "C10",
+                                json!({
+                                    "why": format!("width {w}: initial store {} then {:?} then hash({}) at step {n}: demanded {} for the current store, code says {got}",
+                                                   c["init"], before, op["key"], if demand_ok { "ok(id hash)" } else { "error" }),
+                                    "class": class, "seq": c, "step": n, "width": w, "got": got,
+                                    "table": table.iter().map(|(_, b)| json!({"key": [b["code"], b["id"]["h"], b["cont"]["h"]], "b": b})).collect::<Vec<_>>(),
+                                }),
+                            );
+                        }
+                    }
+                    o => tool_error(&format!("bad op {o}")),
+                }
+            }
+        }
+    }
+    sum.set("outcomes", json!(outcomes));
+    sum.set("behaviours", json!(behaviours));
+    sum.write(args.opt("summary").unwrap_or_else(|| tool_error("--summary required")));
 }
 
 pub fn replay(args: &Args) {
